@@ -988,7 +988,8 @@ class Circuit(Function):
             else:
                 self._gate_to_users[gate_label].extend(list_users)
 
-        check_circuit_has_no_cycles(self)
+        # the new gates may close a loop that no output reaches: look at every gate
+        check_circuit_has_no_cycles(self, list(self._gates))
 
         return self
 
